@@ -97,7 +97,11 @@ static int stub_signal(int efd, void *arg, int signum)
 {
     struct vhost *vh = arg;
     struct op o = { .kind = OP_FWD, .cls = Y_SIG, .a = vh ? vh - vhosts : -1, .b = signum };
-    (void) efd;
+    extern int sched_is_efd_of(int fd, int h);
+    /* the rsh protocol sends the signal over the stderr connection: a descriptor number that is no longer this
+     * target's open stderr connection (closed, or handed to somebody else meanwhile) reaches the wrong peer */
+    if (vh && efd >= 0 && !sched_is_efd_of(efd, (int) (vh - vhosts)))
+        o.err = 1;
     sched_do(o);
     return 0;
 }
